@@ -103,11 +103,11 @@ def run(ctx):
     # ---- one call + statistics reader / two calls: sampled interleavings, every crash point
     scens = []
     inter2 = list(A.interleavings([9, 9]))
-    for sched in rng.sample(inter2, ctx.scale(6, 150)):
+    for sched in rng.sample(inter2, ctx.scale(6, 700)):
         init, rows = rng.choice(INITS)
         calls = rng.choice([[ev("s1"), ev("s2")], [ev("s1"), ev("s1")], [ev("s1"), ev("s0")]])
         scens += crash_cases(calls, sched, init, rows, rng.choice(STALE))
-    for sched in rng.sample(list(A.interleavings([9, 3])), ctx.scale(4, 60)):
+    for sched in rng.sample(list(A.interleavings([9, 3])), ctx.scale(4, 220)):
         init, rows = rng.choice(INITS)
         scens += crash_cases([ev("s1"), ["s"]], sched, init, rows, rng.choice(STALE))
     go(scens, "2 concurrent calls (distinct / colliding / already recorded / with make_statistic): crash at every scheduling point of sampled interleavings, restart", False)
@@ -143,7 +143,7 @@ def run(ctx):
     go(scens, "output path given without extension: header and rows in <path>.tsv (D17)", False)
     # ---- two aggregators in one directory
     scens = []
-    for _ in range(ctx.scale(120, 2500)):
+    for _ in range(ctx.scale(120, 12000)):
         comps, sess = [], []
         for k, f in enumerate(["a.tsv", "b.tsv"]):
             init, rows = rng.choice(INITS)
@@ -186,7 +186,7 @@ def run(ctx):
     go(scens, "two aggregators in one directory (a.tsv, b.tsv, same subject names), interleaved steps, common or single crash, restart", False)
     # ---- a few runs with the real evaluator
     scens = []
-    for _ in range(ctx.scale(12, 120)):
+    for _ in range(ctx.scale(12, 300)):
         init, rows = rng.choice(INITS)
         sc = rng.choice(crash_cases([ev("s1"), ev("s2")], rng.choice(inter2), init, rows, rng.choice(STALE)))
         scens.append(sc)
